@@ -169,8 +169,12 @@ class AFMReader(TextToModel):
 
     @staticmethod
     def _read_value(value_spec: AFMParser.Value_specContext) -> Any:
-        """An integer for an INT token, otherwise the text of the value."""
-        return int(value_spec.getText()) if value_spec.INT() is not None else value_spec.getText()
+        """An integer for an INT token, a float for a DOUBLE token, otherwise the text of the value."""
+        if value_spec.INT() is not None:
+            return int(value_spec.getText())
+        if value_spec.DOUBLE() is not None:
+            return float(value_spec.getText())
+        return value_spec.getText()
 
     def set_constraints(self) -> None:
         constraints_block = self.parse_tree.constraints_block()
